@@ -438,6 +438,14 @@ static void __attribute__((noinline)) sim_scrub_stack(uint64_t seed) {
 	__asm__ volatile("" : : "r"(area) : "memory");
 }
 
+/* Same region set to zero: for engines in which the contents of never-written stack storage are not the
+ * subject (a cleanup path that releases a never-initialised slot then meets NULL whatever ran before). */
+static void __attribute__((noinline)) sim_zero_stack(void) {
+	volatile uint8_t area[192 * 1024];
+	memset((void *)area, 0, sizeof(area));
+	__asm__ volatile("" : : "r"(area) : "memory");
+}
+
 /*============================================================================*/
 /* Main loop                                                                  */
 /*============================================================================*/
